@@ -116,13 +116,13 @@ PROPS["C18"] = dict(
 
 PROPS["C19"] = dict(
     level="model_checking",
-    groups=lambda tier, seed, ctx: [Group("c19", ["verif_c19"], jobs=8, harness_timeout=1800, mem_gb=20)],
+    groups=lambda tier, seed, ctx: [Group("c19", ["verif_c19"], jobs=8 if tier == "quick" else 2, harness_timeout=1800 if tier == "quick" else 3600, mem_gb=20 if tier == "quick" else 56)],
     functions=["main::load_rom", "system::read_header", "cart::Header::{valid_checksum,get_rom_bank_count,get_rom_size_bytes,get_ram_size_bytes,create_cart_state}",
                "emulator::Core::from_rom_file", "mem::MemoryAreas::with_rom_file"],
     bounds={"quick": "all 2^640 header contents; all file lengths 0..9 MiB; the real load_rom/read_header run against a ghost regular file of that length "
                      "(seek/read/read_exact stubbed to regular-file semantics); accept/reject decision, buffer sizes, and the mmap contract (mapping never extends past EOF)",
-            "thorough": "same"},
-    outside=["kernel mmap/file semantics beyond the stated contract", "UTF-8 validity of the title (get_title is cut: from_utf8_unchecked)", "I/O errors other than end-of-file"],
+            "thorough": "plus the real system::read_header (seek + read_exact over the ghost file) for all file lengths: Ok exactly when the 80 header bytes exist, and then equal to them (about 8 min, > 20 GB)"},
+    outside=["short-file handling inside read_header in the quick tier (thorough only; the load decision uses a model of read_header there)", "kernel mmap/file semantics beyond the stated contract", "UTF-8 validity of the title (get_title is cut: from_utf8_unchecked)", "I/O errors other than end-of-file"],
     stubs=CTOR_STUBS[1:] + ["system::open_rom_file -> Ok(file) (existence is not the subject)", "File::{seek,read,read_exact} -> regular file of ghost length holding the symbolic header at 0x100",
                             "system::get_rom_buffer -> contract stub recording whether the mapping exceeds the file length", "CodeCache::new -> empty cache without mmap", "Header::get_title -> empty string"],
     assumptions=["unsupported cartridge types are checked separately: construction must not return (controlled termination)"],
@@ -134,12 +134,12 @@ PROPS["C20"] = dict(
     groups=lambda tier, seed, ctx: [Group("c20", ["verif_c20"], jobs=14, harness_timeout=1200 if tier == "quick" else 3600, mem_gb=12)],
     functions=["debug::command::{parse_address,parse_command,normalize_command}", "debug::disassembly::disassemble", "decoder::{decode,decode_cb}"],
     bounds={"quick": "parse_address: all 65536 values in lower/upper-case, padded/unpadded 0x-hex and in decimal; 0x10000..0xFFFFF and 65536..999999 rejected; "
-                     "'0x' + up to 4 arbitrary printable ASCII bytes accepted iff hex digits; arbitrary ASCII tokens <= 5 bytes total. parse_command: command words with "
-                     "symbolic letter case and whitespace layouts, address arguments for all 65536 values; arbitrary ASCII lines <= 3 bytes. disassemble: every first byte "
+                     "'0x' + up to 4 arbitrary printable ASCII bytes accepted iff hex digits; arbitrary ASCII tokens <= 5 bytes total. disassemble: every first byte "
                      "(256) and every CB second byte (256) with symbolic operand bytes, placed first and last in a two-instruction slice at any base address (incl. wrap)",
-            "thorough": "same"},
-    outside=["sign-prefixed numbers (+12, 0x+1f): not settled by the statement", "arbitrary Unicode lines longer than the stated bounds", "rendered disassembly text (Op's Display is cut)",
-             "'info registers' two-word command (String::to_lowercase on two tokens did not fit the quick budget)"],
+            "thorough": "plus parse_command: command words with symbolic letter case and whitespace layouts, address arguments for all 65536 values, arbitrary ASCII lines <= 3 bytes "
+                        "(String::to_lowercase / split_whitespace over symbolic bytes: each query may exceed its 60 min budget and is then reported inconclusive)"},
+    outside=["parse_command in the quick tier (see thorough)", "sign-prefixed numbers (+12, 0x+1f): not settled by the statement", "arbitrary Unicode lines longer than the stated bounds", "rendered disassembly text (Op's Display is cut)",
+             "'info registers' two-word command"],
     stubs=["<Op as Display>::fmt -> Ok(()) in the disassembler harnesses (text is not the subject)"],
     assumptions=[],
     replay={"*": "playback"},
@@ -151,7 +151,7 @@ PROPS["C14"] = dict(
     functions=["devices::video::VideoState::{run_clock_cycles,check_current_line,check_mode_interrupt,get_lcd_status,get_ly,get_current_mode,set_ly_compare,set_lcd_status,new}"],
     bounds={"quick": "one 4-clock step from EVERY valid schedule position (17556 positions x all STAT enables x all LYC values x arbitrary scroll/window registers): "
                      "position advances by 4 on a 70224 cycle, mode/LY/STAT bits and VBlank/STAT requests equal the closed-form schedule (inductive step => frame length, "
-                     "once-per-frame VBlank for histories of any length); one call with 8 clocks from any position, a 96-clock batch from position 153*456+448 (across the frame wrap, start position concrete) and a 24-clock batch from 143*456+444 across the 143->144 hand-over equal the same number of reference steps",
+                     "once-per-frame VBlank for histories of any length); one call with 8 clocks from any position, an 88-clock batch from position 153*456+448 (across the frame wrap, start position concrete) and a 24-clock batch from 143*456+444 across the 143->144 hand-over equal the same number of reference steps",
             "thorough": "plus symbolic batch length k <= 8 from any position (may exceed the time budget: reported inconclusive then)"},
     outside=["frame length and per-frame counts are consequences of the step relation, not separate 17556-step queries", "LCD disabled (LCDC bit 7 = 0) behaviour: not in the statement"],
     stubs=["LCD::new -> same value without the push loop", "VideoState::{find_current_line_sprites,cache_next_tile_row,cache_next_window_tile_row} -> no-ops (they write only the pixel-pipeline caches, which the schedule does not read; native replay runs the real ones)",
@@ -175,6 +175,7 @@ _INTERP_COMMON = dict(
     assumptions=["F's low nibble is 0 and register pairs are 16-bit in the pre-state (the invariant the property itself states)",
                  "the instruction lies inside one executable region (PC <= 0xFFFC)"],
     replay={"*": "playback"},
+    realizable_retry=True,
 )
 PROPS["C05"] = dict(_INTERP_COMMON, key_prefix="C05",
     bounds={"quick": "one query per defined opcode (245 + 256): ALL register/flag values, operand bytes, bus read values, SP/PC; results, all four flags, F low nibble, "
@@ -201,6 +202,7 @@ _JIT_COMMON = dict(
                  "with ARBITRARY upper bits, r14 = 0, every other register, the flags and the stack contents arbitrary", "PC in ROM (only ROM is translated)"],
     inconclusive_keys=["C01.x86sem."],
     replay={"*": "playback"},
+    realizable_retry=True,
 )
 PROPS["C01"] = dict(_JIT_COMMON, key_prefix="C01",
     bounds={"quick": "every defined opcode (245 + 256): the template the real emitter produces on this tree, all guest register/flag values, symbolic operand bytes "
@@ -296,13 +298,39 @@ PROPS["C15"] = dict(
     functions=["devices::video::VideoState::{run_clock_cycles (mode 2/3/0 pixel pipeline), find_current_line_sprites, get_object_row, cache_next_tile_row, cache_next_window_tile_row, get_tile_address, get_tile_row}",
                "devices::video::tile::interleave", "devices::video::lcd::LCD::get_writing_buffer_line"],
     bounds={"quick": "control values enumerated, contents symbolic: for each of 4 configurations (BG with scroll wrap-around, signed tile addressing and the second map; window starting at WX=163; "
-                     "three overlapping objects with symbolic tiles, flips, palettes and BG-priority bits; eleven objects on a line two of which are off-screen) one full scan line "
+                     "two overlapping objects (symbolic pixel data) with symbolic flips, palette and BG-priority bits on the winning one; eleven objects on a line two of which are off-screen) one full scan line "
                      "(114 calls of run_clock_cycles) over fully symbolic VRAM (maps and tile data) and palettes, any pixel column compared with the reference compositor; interleave and the "
                      "X-flip multiply trick for all inputs",
-            "thorough": "plus a window at the left edge and 8x16 objects"},
+            "thorough": "plus a window at the left edge, 8x16 objects with Y flip, equal-X objects"},
     outside=["symbolic scroll/window/OAM positions (enumerated configurations instead; a one-step query over the pixel pipeline with symbolic positions does not finish)",
              "mid-frame register changes (the statement holds them constant)", "the buffer swap at VBlank is part of C14's step relation"],
     stubs=["LCD::new -> same value without the push loop"],
     assumptions=[],
     replay={"*": "playback"},
 )
+
+_LEVEL_TEXT = {
+ "C01": "Translation validation: for each of the 500 templates the real emitter produces on the current tree, a SAT query over all guest register/flag values, operand bytes, bus read values and host scratch state shows the x86-64 template (executed by an SDM-based subset semantics) leaves the same guest state, status and ordered bus trace as the real interpreter; plus prologue/epilogue framing. Bounded by single instructions composed through the 'any related host state' argument.",
+ "C02": "Translation validation of the cycle counter: same queries as C01, asserting the r15w delta equals the interpreter's cycle delta for both outcomes of every conditional.",
+ "C03": "Bounded model checking of the cache key/tag lemmas and of the lookup/translate/call glue as an inductive step (arbitrary bank-switching write inside the step), plus equality of the translator's, the fetch and the data view of ROM for every bank state.",
+ "C04": "Compositional: Core::run_code_block of both builds against one tail specification with a shared nondeterministic block executor (solver queries in both cargo configurations); per-block equivalence is C01+C02, cache transparency C03, device behaviour C13-C18.",
+ "C05": "Bounded model checking of the real decoder + interpreter against an independent SM83 reference, one query per opcode covering all operand/flag/register values and the exact bus event list.",
+ "C06": "Same queries as C05 for PC, SP, stack bytes in order, machine cycles (taken / not taken), block termination and status; undefined opcodes must not return.",
+ "C07": "Bounded model checking of the real handle_interrupt with the real bus ladder over all IF/IE/IME/run states, every PC, and stack pointers over every RAM stack position and the edge set where the push lands on IE/IF or wraps.",
+ "C08": "One-step simulation of the real Core::update against the reference EI/DI/RETI/HALT/STOP machine from every control state (inductive step: covers sequences of any length).",
+ "C09": "Bounded model checking of the time accounting of Core::update in both builds with the CPU executor cut to 'consumes k cycles': clocks delivered, order of delivery and sampling, halted steps, dispatch cycles.",
+ "C10": "Bounded model checking of the real bus ladder: write-then-read frame rule over all address pairs per target class, unmapped regions, ROM immutability, I/O read-back masks, fetch view.",
+ "C11": "Bounded model checking for absence of panics / out-of-bounds / overflow in the four bus helpers over all header size codes, all controller register states and all addresses.",
+ "C12": "Bounded model checking of the real controller + bus against a reference MBC1/MBC3 model over all 3-write sequences, all ROM/RAM size codes and every probe offset.",
+ "C13": "Bounded model checking of the real Timer against a per-clock reference: inductive single-clock step from any state, batches, fast path, batch splitting, TAC-write glitch.",
+ "C14": "Bounded model checking of the real LCD mode machine: one 4-clock step from every schedule position against the closed-form schedule (inductive step), register writes, fixed-length batches.",
+ "C15": "Bounded model checking of the real pixel pipeline on enumerated control configurations with fully symbolic VRAM and palettes against a reference compositor; bit tricks for all inputs.",
+ "C16": "Bounded model checking of the real DMA engine: arming, the transaction contract from any progress state for all pages (recording bus), batch splitting, idle engine.",
+ "C17": "Bounded model checking of the complete joypad transition relation (all states x all single actions) against the button-matrix reference.",
+ "C18": "Bounded model checking of the serial port, its bus routing over the whole address space and write sequences, with Stdout/StdoutLock write paths replaced by a byte recorder.",
+ "C19": "Bounded model checking of the real load_rom decision over all headers and file lengths against a ghost regular file, checksum and table equivalence over all 80-byte headers.",
+ "C20": "Bounded model checking of parse_address over all 65536 values in every notation plus malformed inputs, and of disassemble's tiling for every opcode with symbolic operands at any base address.",
+}
+for _k, _v in _LEVEL_TEXT.items():
+    if _k in PROPS:
+        PROPS[_k]["level_text"] = _v
